@@ -45,4 +45,15 @@ theorem delete_chan_calls :
 /-- `RemoveClient`: exiting check, removal, once-only ephemeral delete -/
 theorem remove_client_calls : Nsq.Gen.Life.removeClientCalls = ["Exiting", "delete", "Do"] := by decide
 
+/-- the timeout scan has one of the two modelled shapes: heap pop and a separate `popInFlightMessage`
+(two critical sections), or — fixes/scan_pop_atomic.patch — heap pop and map `delete` in one -/
+def scanTwoSections : List String := ["PeekAndShift", "popInFlightMessage", "TimedOutMessage", "put"]
+def scanOneSection : List String := ["PeekAndShift", "delete", "TimedOutMessage", "put"]
+
+/-- model parameter `St.scanAtomic` for this tree -/
+def treeScanAtomic : Bool := Nsq.Gen.Life.scanCalls == scanOneSection
+
+theorem scan_shape_known :
+    Nsq.Gen.Life.scanCalls = scanTwoSections ∨ Nsq.Gen.Life.scanCalls = scanOneSection := by decide
+
 end Nsq.Tie.Life
